@@ -2,6 +2,7 @@ import RossModel.Codec
 import RossModel.CodecEvent
 import RossModel.CodecProto
 import RossModel.CodecLink
+import RossModel.LinkMany
 import RossModel.Accept
 import RossModel.Spec.Layout
 import RossModel.Spec.Frames
@@ -289,6 +290,8 @@ def scenEvDec (ks ps obs : String) : Verdict :=
       let iClass := if obs.startsWith "ok(" then "ok" else if obs.startsWith "err(" then "err" else obs
       if iClass == "panic" then .prop "C05" "decoder panicked" full
       else if obs.startsWith "ok(INVALID)" then .prop "C05" "decoder materialised a value outside the kind's domain" full
+      else if obs.startsWith "err(INVALID)" then
+        .prop "C05" "decoder returned a result that is neither a value nor an error of the error type (invalid enum materialised)" full
       else if iClass == "ok" && obs.endsWith " re0" then .prop "C05" "accepted value does not re-encode to a packet that decodes to it" full
       else if mClass == "err" && iClass == "err" then
         let inner := ((obs.drop 4).toString.splitOn ")").headD ""
@@ -303,7 +306,9 @@ def scenEvDec (ks ps obs : String) : Verdict :=
         | none => .note "decoded value differs on a packet the reference decoder does not accept"
       else if iClass == "ok" then
         -- accepted although the model rejects: only exact encodings may be accepted
-        if p.isError || codeOf p.data != some k.code || !sizeOk k p.data.length then
+        if (match m with | .err .unknownEnumVariant => true | _ => false) then
+          .prop "C05" "accepted a packet whose variant tag or flag byte is outside the kind's table" full
+        else if p.isError || codeOf p.data != some k.code || !sizeOk k p.data.length then
           .prop "C05" "accepted a packet that is an error packet, carries another event code or has the wrong length" full
         else .corr full
       else
@@ -396,7 +401,9 @@ def scenRxh (link items obs : String) : Verdict :=
         let rec check (ps : List (String × Nat × Nat × Nat)) (ss : List (String × Nat)) (prevAnn : Nat) : Option String :=
           match ps, ss with
           | (r, live, peak, plen) :: pt, (_, ann) :: st =>
-            if live > base + heapBound ann then
+            -- a call that never returned (the script ended inside a frame and the mock unwound the spin) is not measured
+            if r.startsWith "blocked" then check pt st ann
+            else if live > base + heapBound ann then
               some s!"after a poll the receiver holds {live - base} bytes with {ann} frames announced"
             else if ann == 0 && live > base then
               some s!"receiver holds {live - base} bytes more than a fresh one at a packet boundary ({r})"
@@ -438,36 +445,37 @@ def canOf (p : Packet) : Option (List CanFrame) :=
 def showCanLog (log : List CanFrame) : String :=
   if log.length ≤ 4 then joinOr (log.map showCan) "," else digest (log.map showCan)
 
+def showSendResults (rs : List (Res SendErr Unit)) : String := String.intercalate "," (rs.map showSendRes)
+
+def parseFlushes (s : String) : List FlushResp := s.toList.map fun c => if c = 'o' then .ok else .ioError
+
+/-- `tx <link> <packet[+packet…]> <responses> [flush answers]`: sends made one after the other on one instance -/
 def scenTx (toks : List String) (obs : String) : Verdict :=
   let ans : Option String :=
     match toks with
-    | ["usart", p, rs] => do
-      let pk ← parsePacket p
+    | ["usart", ps, rs] => do
+      let pks ← (ps.splitOn "+").mapM parsePacket
       let r ← parseWResps rs
-      match bodiesOf pk with
-      | some us => pure (showLogBytes (usartWriteAll (wireOf us) r) ++ " ok")
-      | none => pure "panic"
-    | ["can", p, rs] => do
-      let pk ← parsePacket p
+      let uss ← pks.mapM bodiesOf
+      pure (showLogBytes (usartSendMany uss r) ++ " " ++ String.intercalate "," (pks.map fun _ => "ok"))
+    | ["can", ps, rs] => do
+      let pks ← (ps.splitOn "+").mapM parsePacket
       let r ← parseTxResps rs
-      match canOf pk with
-      | some cs => let (log, res) := canTransmitAll cs r; pure (showCanLog log ++ " " ++ showSendRes res)
-      | none => pure "panic"
-    | ["serial", p, rs, fl] => do
-      let pk ← parsePacket p
+      let css ← pks.mapM canOf
+      let (log, res) := canSendMany css r
+      pure (showCanLog log ++ " " ++ showSendResults res)
+    | ["serial", ps, rs, fl] => do
+      let pks ← (ps.splitOn "+").mapM parsePacket
       let r ← parseIoResps rs
-      match bodiesOf pk with
-      | some us =>
-        let (w, ok, _) := serialSendFrames us r
-        let res : Res SendErr Unit := if !ok then .err .writeError else if fl = "o" then .ok () else .err .writeError
-        pure (showLogBytes w ++ "/f" ++ (if ok then "1" else "0") ++ " " ++ showSendRes res)
-      | none => pure "panic"
+      let uss ← pks.mapM bodiesOf
+      let (w, n, res) := serialSendMany uss r (parseFlushes fl)
+      pure (showLogBytes w ++ "/f" ++ toString n ++ " " ++ showSendResults res)
     | _ => none
   match ans with
   | none => .bad "parse"
   | some a =>
     if a == obs then .ok
-    else .prop "C14" "bytes/frames on the device or the result differ from the byte-exact wire image" a
+    else .prop "C14" "bytes/frames on the device or the results differ from the byte-exact wire image" a
 
 /-! ## loop-back and end to end -/
 
